@@ -1352,6 +1352,8 @@ lshpack_dec_dec_int (const unsigned char **src_p, const unsigned char *src_end,
     {
         if (src < src_end)
         {
+            if (M > 28) /* 6th continuation byte: value does not fit 32 bits */
+                return -2;
             B = *src++;
             val = val + ((B & 0x7f) << M);
             M += 7;
